@@ -116,6 +116,12 @@ def replay_filter(arg):
     for rendering, ego, tf in renders:
         n += 1
         real = build_objs(objs, rendering, ego)
+        if rendering == "map:reused-transforms":
+            # ... and the very same object instances have been through the filter once before, with the other pose's transforms
+            try:
+                filter_objects(real, is_gt, **kwargs_of(P, egos[0].transforms()))
+            except Exception:
+                pass
         real0 = list(real)
         kw = kwargs_of(P, tf, tl=rendering == "2d_tl")
         rep = {"objs": objs, "is_gt": is_gt, "P": P, "rendering": rendering, "spec": out}
